@@ -1520,6 +1520,8 @@ def matches(exp, got):
             return exp == got
         if isinstance(exp, float) and exp == math.floor(exp) and not (-(2.0 ** 63) < exp < 2.0 ** 64):
             # a double outside the integer range: jawk prints all its digits, the token may look like an integer
+            if isinstance(got, int) and -(2 ** 63) <= got <= 2 ** 64 - 1:
+                return Fraction(exp) == got     # ... but an integer of the 64-bit ranges denotes itself (2^64-1 is not 2^64)
             return float(got) == exp
         if isinstance(exp, int) != isinstance(got, int):
             # integral results must be printed as integers and vice versa
